@@ -17,6 +17,7 @@ func init() {
 			"PV-GO concurrent opens: own slot, joined before use",
 			"PV-CONST --limit default is non-positive; line_format result is a copy of the template buffer; PV-CMP comparators",
 			"PV-ALIAS no unsafe.String",
+			"PV-WHOLE SetAttrs visits every attribute; the limit counts kept entries",
 		},
 		NotDecided: []string{"terminal behaviour", "isatty / NO_COLOR detection"},
 		Rules: func(r *Run) {
@@ -32,6 +33,8 @@ func init() {
 			ruleTemplateBinding(r) // the rendered message is the text the template produced for that entry
 			ruleComparatorsNoSubtraction(r, []string{cmdPkg, enginePkg, metricPkg, dockerlogPkg})
 			ruleNoUnsafeStrings(r, []string{enginePkg, dockerlogPkg, cmdPkg})
+			ruleSetAttrsWhole(r) // the container name and colour come from labels that must all be there
+			ruleLimit(r)
 		},
 	})
 }
